@@ -19,6 +19,7 @@ package header
 
 import (
 	"net/http"
+	"sort"
 	"strings"
 
 	"github.com/tmpim/casket/caskethttp/httpserver"
@@ -40,7 +41,7 @@ func (h Headers) ServeHTTP(w http.ResponseWriter, r *http.Request) (int, error) 
 	}
 	for _, rule := range h.Rules {
 		if httpserver.Path(r.URL.Path).Matches(rule.Path) {
-			for name := range rule.Headers {
+			for _, name := range rule.names() {
 
 				// One can either delete a header, add multiple values to a header, or simply
 				// set a header.
@@ -67,8 +68,37 @@ type (
 	Rule struct {
 		Path    string
 		Headers http.Header
+
+		// order lists the keys of Headers in the order in which they were
+		// written in the Casketfile: the operations of a rule are applied in
+		// that order (ranging over the map would apply them in random order,
+		// so "X-H a" followed by "+X-H b" would yield "a" or "a, b" by chance)
+		order []string
 	}
 )
+
+// names returns the keys of r.Headers in the order in which they are applied:
+// as written in the Casketfile, or sorted if the rule was not built by the parser.
+func (r Rule) names() []string {
+	if len(r.order) == len(r.Headers) {
+		return r.order
+	}
+	names := make([]string, 0, len(r.Headers))
+	for name := range r.Headers {
+		names = append(names, name)
+	}
+	sort.Strings(names)
+	return names
+}
+
+// add appends value to the header operation name, remembering the order of first appearance.
+func (r *Rule) add(name, value string) {
+	key := http.CanonicalHeaderKey(name)
+	if _, ok := r.Headers[key]; !ok {
+		r.order = append(r.order[:len(r.order):len(r.order)], key)
+	}
+	r.Headers.Add(name, value)
+}
 
 // headerOperation represents an operation on the header
 type headerOperation func(http.Header)
